@@ -149,6 +149,7 @@ struct Global {
     bool pushref_next = false;
     // pages
     std::vector<PageInfo> pages;
+    std::unordered_map<void *, size_t> page_pos; // page address -> index in pages
     uint64_t pages_total = 0;
     bool recycle = false;
     std::vector<void *> pool;      // freed by the code under test, kept
@@ -629,7 +630,7 @@ void begin(const Plan &plan) {
     G.steps = 0; G.tail = false;
     G.choice_idx = 0; G.rec.clear(); G.choice_hash = 0;
     G.pushref_mode = 0; G.pushref_next = false;
-    G.pages.clear(); G.pages_total = 0;
+    G.pages.clear(); G.page_pos.clear(); G.pages_total = 0;
     for (void *q : G.pool) __real_free(q);
     for (void *q : G.pool_taken) __real_free(q);
     G.pool.clear(); G.pool_taken.clear();
@@ -1140,6 +1141,7 @@ int __wrap_posix_memalign(void **out, size_t align, size_t size) {
         // a real malloc may well return memory that was freed a moment ago, contents intact
         *out = G.pool.front();
         G.pool.erase(G.pool.begin());
+        G.page_pos[*out] = G.pages.size();
         G.pages.push_back({*out, size});
         G.pages_total++;
         G.stats.probes["page_memory_reused"]++;
@@ -1147,6 +1149,7 @@ int __wrap_posix_memalign(void **out, size_t align, size_t size) {
     }
     int rc = __real_posix_memalign(out, align, size);
     if (rc == 0 && sim::active()) {
+        G.page_pos[*out] = G.pages.size();
         G.pages.push_back({*out, size});
         G.pages_total++;
     }
@@ -1154,13 +1157,15 @@ int __wrap_posix_memalign(void **out, size_t align, size_t size) {
 }
 void __wrap_free(void *p) {
     if (p && G.run_active && !G.pages.empty()) {
-        for (size_t i = 0; i < G.pages.size(); i++)
-            if (G.pages[i].p == p) {
-                bool keep = G.recycle && G.pages[i].size == 4096;
-                G.pages.erase(G.pages.begin() + i);
-                if (keep) { G.pool.push_back(p); return; }
-                break;
-            }
+        auto it = G.page_pos.find(p); // constant time: runs may hold a million pages
+        if (it != G.page_pos.end()) {
+            size_t i = it->second;
+            bool keep = G.recycle && G.pages[i].size == 4096;
+            G.page_pos.erase(it);
+            if (i + 1 != G.pages.size()) { G.pages[i] = G.pages.back(); G.page_pos[G.pages[i].p] = i; }
+            G.pages.pop_back();
+            if (keep) { G.pool.push_back(p); return; }
+        }
     }
     __real_free(p);
 }
